@@ -82,6 +82,9 @@ func init() {
 	scope.Let(slip.Symbol(value2Key), nil)
 	scope.Let(slip.Symbol(value3Key), nil)
 
+	// The initial value, set before the configuration file is evaluated so
+	// that a saved *repl-history-limit* replaces it.
+	TheHistory.SetLimit(1000)
 	slip.AddSetHook("repl", setHook)
 	slip.AddUnsetHook("repl", unsetHook)
 	slip.AddDefunHook("repl", addHook)
@@ -166,7 +169,6 @@ func Run() {
 		_, _ = scope.Get(slip.Symbol(stdOutput)).(io.Writer).Write([]byte("\nBye\n"))
 		replReader.stop()
 	}()
-	TheHistory.SetLimit(1000) // initial value that the user can replace by setting *repl-history-limit*
 	TheHistory.Load(historyFilename)
 	initStash()
 
@@ -367,6 +369,9 @@ func updateConfigFile() {
 		value := slip.UserPkg.JustGet(key)
 		p := *slip.DefaultPrinter()
 		p.Readably = true
+		// The file is read with the default base whatever *print-base* is now.
+		p.Base = 10
+		p.Radix = false
 		b = fmt.Appendf(b, "(setq %s ", key)
 		if list, ok := value.(slip.List); ok && 0 < len(list) {
 			b = append(b, '\'')
